@@ -146,7 +146,11 @@ let check (op : string) (ty : string) (a : string array) (expected : string) : b
         | "npn_canon", [c; p; m] -> (p_lut c, p_nlist p, p_n m, 2)
         | _ -> failwith "bad canon result") in
      let cert = int_of_nat c.nv = int_of_nat x.nv && chk_cert x.nv x.tbl c.tbl perm mask in
-     let minimal = if int_of_nat x.nv <= 5 then chk_minimal (nat_of_int group) x.nv x.tbl c.tbl else true in
+     (* minimality by enumeration of the whole group where that is affordable on the extracted model:
+        P (n! elements) up to n = 6, N (2^(n+1)) up to n = 8, NPN up to n = 5 *)
+     let nvi = int_of_nat x.nv in
+     let affordable = (match group with 0 -> nvi <= 6 | 1 -> nvi <= 8 | _ -> nvi <= 5) in
+     let minimal = if affordable then chk_minimal (nat_of_int group) x.nv x.tbl c.tbl else true in
      Some (cert && minimal)
   (* ---- C06 *)
   | "top_decomposition" -> let x = p_lut a.(0) and v = p_n a.(1) in
